@@ -348,6 +348,12 @@ func mutatedArg(cc *ssa.CallCommon) (int, string) {
 		if sc == nil && isCtxOpSignature(cc.Signature()) {
 			return 0, "apd.Context.(operation passed as a function value)"
 		}
+		// a method expression ((*apd.Context).Sub) handed in: the context is the first argument, the
+		// destination the second
+		if sig := cc.Signature(); sc == nil && sig != nil && sig.Params().Len() >= 3 && sig.Results().Len() == 2 &&
+			typeIs(sig.Params().At(0).Type(), "", "Context") && typeIs(sig.Params().At(1).Type(), "", "Decimal") && typeIs(sig.Results().At(0).Type(), "", "Condition") {
+			return 1, "apd.Context.(operation passed as a method expression)"
+		}
 	}
 	if sc == nil || sc.Signature.Recv() == nil {
 		return -1, ""
@@ -434,6 +440,17 @@ func dynInstances(p *Program, fn *ssa.Function, ci ssa.CallInstruction) int {
 			if ctx, m, ok := boundCtxMethod(a); ok {
 				// one instance per call site that passes an operation
 				seen[fmt.Sprintf("%p|%s.%s", c2, fmt.Sprint(addrRoot(derefLoad(ctx))), m)] = true
+			} else if f, isF := a.(*ssa.Function); isF && isApdCtxMethodExpr(f) {
+				seen[fmt.Sprintf("%p|%s", c2, apdMethodExprName(f))] = true
+			} else if q, isPrm := a.(*ssa.Parameter); isPrm {
+				// handed on from the caller's own parameter: count the operations flowing into that one
+				for _, ci2 := range callsIn(g) {
+					if ci2 == c2 {
+						for k := 0; k < dynInstancesOfParam(p, g, q); k++ {
+							seen[fmt.Sprintf("%p|via|%d", c2, k)] = true
+						}
+					}
+				}
 			}
 		}
 	}
@@ -560,6 +577,25 @@ func ctxOps(fn *ssa.Function, sp *ssa.Package, seen map[*ssa.Function]bool) map[
 			continue
 		}
 		if sc.Pkg == sp && sc != fn {
+			// a helper handed a context AND an operation of the library as a method expression
+			// (applyBinary(&exactContext, (*apd.Context).Sub, x, y)) performs that operation on that context
+			var ctxArg ssa.Value
+			var opFn *ssa.Function
+			for _, a := range cc.Args {
+				fv := a
+				if ct, isCT := fv.(*ssa.ChangeType); isCT {
+					fv = ct.X
+				}
+				if f, isF := fv.(*ssa.Function); isF && isApdCtxMethodExpr(f) {
+					opFn = f
+				} else if pt, isP := a.Type().Underlying().(*types.Pointer); isP && typeIs(pt.Elem(), "", "Context") && strings.Contains(pt.Elem().String(), "apd") {
+					ctxArg = a
+				}
+			}
+			if ctxArg != nil && opFn != nil {
+				out[ctxName(ctxArg)+"."+apdMethodExprName(opFn)] = true
+				continue
+			}
 			// only arithmetic helpers count: predicates and renderers do not compute a result value
 			if sc.Signature.Results().Len() > 0 && typeIs(sc.Signature.Results().At(0).Type(), mathPkgSuffix, "Dec") {
 				for k := range ctxOps(sc, sp, seen) {
@@ -603,9 +639,80 @@ func ruleM2Literals(c *Ctx, p *Program) {
 			if !ok {
 				return true
 			}
+			// the initialiser is a composite literal, or a call of a same-package constructor whose body is
+			// `return apd.Context{…}` with fields computed from its parameters: the fields are then evaluated
+			// with the call's constant arguments substituted
+			env := map[types.Object]constant.Value{}
 			cl, ok := vs.Values[0].(*ast.CompositeLit)
 			if !ok {
-				return true
+				call, isCall := vs.Values[0].(*ast.CallExpr)
+				if !isCall {
+					return true
+				}
+				id, _ := call.Fun.(*ast.Ident)
+				if id == nil {
+					return true
+				}
+				fobj, _ := pk.TypesInfo.Uses[id].(*types.Func)
+				if fobj == nil || fobj.Pkg() != pk.Types {
+					return true
+				}
+				var decl *ast.FuncDecl
+				for _, f2 := range pk.Syntax {
+					for _, d := range f2.Decls {
+						if fd, isFd := d.(*ast.FuncDecl); isFd && pk.TypesInfo.Defs[fd.Name] == fobj {
+							decl = fd
+						}
+					}
+				}
+				if decl == nil || decl.Body == nil || len(decl.Body.List) != 1 {
+					return true
+				}
+				ret, isRet := decl.Body.List[0].(*ast.ReturnStmt)
+				if !isRet || len(ret.Results) != 1 {
+					return true
+				}
+				cl, ok = ret.Results[0].(*ast.CompositeLit)
+				if !ok {
+					return true
+				}
+				i := 0
+				for _, fld := range decl.Type.Params.List {
+					for _, nm := range fld.Names {
+						if i < len(call.Args) {
+							if tv := pk.TypesInfo.Types[call.Args[i]]; tv.Value != nil {
+								env[pk.TypesInfo.Defs[nm]] = tv.Value
+							}
+						}
+						i++
+					}
+				}
+			}
+			var evalC func(e ast.Expr) constant.Value
+			evalC = func(e ast.Expr) constant.Value {
+				if tv := pk.TypesInfo.Types[e]; tv.Value != nil {
+					return tv.Value
+				}
+				switch x := e.(type) {
+				case *ast.Ident:
+					if v, has := env[pk.TypesInfo.Uses[x]]; has {
+						return v
+					}
+				case *ast.ParenExpr:
+					return evalC(x.X)
+				case *ast.BinaryExpr:
+					a, b := evalC(x.X), evalC(x.Y)
+					if a != nil && b != nil && (x.Op == token.OR || x.Op == token.AND || x.Op == token.ADD) {
+						return constant.BinaryOp(a, x.Op, b)
+					}
+				case *ast.CallExpr: // conversion T(x)
+					if len(x.Args) == 1 {
+						if tv := pk.TypesInfo.Types[x.Fun]; tv.IsType() {
+							return evalC(x.Args[0])
+						}
+					}
+				}
+				return nil
 			}
 			name := vs.Names[0].Name
 			found[name] = true
@@ -621,6 +728,9 @@ func ruleM2Literals(c *Ctx, p *Program) {
 					continue
 				}
 				tv := pk.TypesInfo.Types[kv.Value]
+				if tv.Value == nil {
+					tv.Value = evalC(kv.Value)
+				}
 				switch k.Name {
 				case "Precision":
 					prec = tv.Value
@@ -744,6 +854,15 @@ func ruleM2NoWrites(c *Ctx, e *Env, p *Program) {
 								okUse = true // receiver of one of the library's own methods
 								for _, a := range cc.Args[1:] {
 									if a == ssa.Value(g) {
+										okUse = false
+									}
+								}
+							} else if sc != nil && sc.Pkg == fn.Pkg && len(sc.Blocks) > 0 {
+								// handed to a hand-written helper of the same package that uses the pointer only as the
+								// receiver of library operations (or hands it to another such helper)
+								okUse = true
+								for i, a := range cc.Args {
+									if a == ssa.Value(g) && (i >= len(sc.Params) || !ctxParamReadOnly(sc.Params[i], 0)) {
 										okUse = false
 									}
 								}
@@ -895,6 +1014,18 @@ func ruleGuard(c *Ctx, p *Program, byName map[string]*ssa.Function, rule, fnName
 		q := newGuardQuery(fn.Prog, fn.Pkg, pred, want)
 		if ok, why := q.guarded(fn, subj, 3); !ok {
 			bad = " — " + why
+			// the function hands its whole job to one same-package helper (`return helper(…)`): the guard is
+			// the helper's to establish on ITS success returns
+			for d, cur := 0, fn; d < 2 && bad != ""; d++ {
+				del := soleDelegate(cur)
+				if del == nil {
+					break
+				}
+				if ok2, _ := q.guarded(del, subj, 3); ok2 {
+					bad = ""
+				}
+				cur = del
+			}
 		}
 		if bad != "" {
 			c.Violate(rule, key, p.Pos(fn.Pos()), fmt.Sprintf("%s: every success return of %s must lie behind %s == %v tested on %s, in the function or a helper it hands the value to%s", why, fnName, pred, want, subj, bad), nil)
@@ -1942,4 +2073,152 @@ func inputRegexes(p *Program, fn *ssa.Function, depth int) []string {
 		}
 	}
 	return out
+}
+
+// isApdCtxMethodExpr: f is a method of apd.Context used as a function value ((*apd.Context).Add).
+func isApdCtxMethodExpr(f *ssa.Function) bool {
+	if f == nil || f.Signature == nil {
+		return false
+	}
+	if !strings.Contains(fnPkgPath(f), "cockroachdb/apd") && !(f.Object() != nil && f.Object().Pkg() != nil && strings.Contains(f.Object().Pkg().Path(), "cockroachdb/apd")) {
+		return false
+	}
+	if r := f.Signature.Recv(); r != nil {
+		return strings.Contains(r.Type().String(), "apd") && strings.HasSuffix(strings.TrimPrefix(r.Type().String(), "*"), "Context")
+	}
+	// thunk: the receiver became the first parameter
+	if f.Signature.Params().Len() > 0 {
+		t := f.Signature.Params().At(0).Type().String()
+		return strings.Contains(t, "apd") && strings.HasSuffix(t, "Context")
+	}
+	return false
+}
+
+func apdMethodExprName(f *ssa.Function) string {
+	n := f.Name()
+	if i := strings.IndexByte(n, '$'); i >= 0 {
+		n = n[:i]
+	}
+	if i := strings.LastIndexByte(n, '.'); i >= 0 {
+		n = n[i+1:]
+	}
+	return n
+}
+
+// ctxParamReadOnly: a *apd.Context parameter of a hand-written helper is only ever the receiver (first argument) of
+// a library operation, the first argument of a call of a function-typed parameter (the operation handed in), or
+// handed to another helper for whose parameter the same holds. No store through it, no store of it, no return.
+func ctxParamReadOnly(prm *ssa.Parameter, depth int) bool {
+	if depth > 3 || prm.Referrers() == nil {
+		return false
+	}
+	for _, r := range *prm.Referrers() {
+		switch y := r.(type) {
+		case *ssa.DebugRef:
+		case ssa.CallInstruction:
+			cc := y.Common()
+			first := len(cc.Args) > 0 && cc.Args[0] == ssa.Value(prm)
+			for i, a := range cc.Args {
+				if i > 0 && a == ssa.Value(prm) {
+					first = false
+					// allowed only when handed on to a read-only helper parameter
+					if sc := cc.StaticCallee(); sc != nil && sc.Pkg == prm.Parent().Pkg && i < len(sc.Params) && ctxParamReadOnly(sc.Params[i], depth+1) {
+						continue
+					}
+					return false
+				}
+			}
+			if cc.Value == ssa.Value(prm) {
+				return false
+			}
+			if first {
+				sc := cc.StaticCallee()
+				switch {
+				case sc != nil && strings.Contains(fnPkgPath(sc), "cockroachdb/apd"):
+				case sc != nil && sc.Pkg == prm.Parent().Pkg && len(sc.Params) > 0 && ctxParamReadOnly(sc.Params[0], depth+1):
+				case sc == nil && !cc.IsInvoke():
+					// dynamic call of a function value: it must be a function-typed PARAMETER (the operation handed in)
+					if _, isPrm := cc.Value.(*ssa.Parameter); !isPrm {
+						return false
+					}
+				default:
+					return false
+				}
+			}
+		default:
+			return false
+		}
+	}
+	return true
+}
+
+// dynInstancesOfParam: the number of call sites in the package that pass an operation of the library (bound
+// method value or method expression) into parameter q of function g.
+func dynInstancesOfParam(p *Program, g *ssa.Function, q *ssa.Parameter) int {
+	idx := -1
+	for i, r := range g.Params {
+		if r == q {
+			idx = i
+		}
+	}
+	if idx < 0 || g.Pkg == nil {
+		return 0
+	}
+	n := 0
+	for _, h := range pkgFuncs(p.SSA, g.Pkg) {
+		for _, c2 := range callsIn(h) {
+			if c2.Common().StaticCallee() != g || idx >= len(c2.Common().Args) {
+				continue
+			}
+			a := c2.Common().Args[idx]
+			if ct, isCT := a.(*ssa.ChangeType); isCT {
+				a = ct.X
+			}
+			if _, _, ok := boundCtxMethod(a); ok {
+				n++
+			} else if f, isF := a.(*ssa.Function); isF && isApdCtxMethodExpr(f) {
+				n++
+			}
+		}
+	}
+	return n
+}
+
+// soleDelegate: fn's only return hands back, unchanged, the results of one call of a hand-written function of
+// the same package.
+func soleDelegate(fn *ssa.Function) *ssa.Function {
+	var ret *ssa.Return
+	for _, b := range fn.Blocks {
+		if r, ok := b.Instrs[len(b.Instrs)-1].(*ssa.Return); ok {
+			if ret != nil {
+				return nil
+			}
+			ret = r
+		}
+	}
+	if ret == nil || len(ret.Results) == 0 {
+		return nil
+	}
+	var call *ssa.Call
+	for i, r := range ret.Results {
+		var c2 *ssa.Call
+		switch x := r.(type) {
+		case *ssa.Call:
+			c2 = x
+		case *ssa.Extract:
+			if x.Index != i {
+				return nil
+			}
+			c2, _ = x.Tuple.(*ssa.Call)
+		}
+		if c2 == nil || (call != nil && c2 != call) {
+			return nil
+		}
+		call = c2
+	}
+	sc := call.Call.StaticCallee()
+	if sc == nil || sc.Pkg != fn.Pkg || len(sc.Blocks) == 0 {
+		return nil
+	}
+	return sc
 }
